@@ -230,11 +230,11 @@ func init() {
 			return
 		}
 		// the historical witnesses
-		runCase([]string{"D1/", "C1:1v", "E1:1,2/", "E1:2b/2"}, 0)  // an address in both lists of one update
-		runCase([]string{"D1/", "C1:1v", "E1:/9", "E1:1/"}, 0)      // removal-only update before any addition
-		runCase([]string{"D1/", "E1:1,2,3/", "C1:1v", "E1:/2"}, 4) // store ahead of the controller
-		runCase([]string{"D1/", "E1:7/", "C1:1i", "C1:2v"}, 0)     // an invalid configuration later corrected (known finding)
-		runCase([]string{"D1/", "C1:1v", "E1:/", "E1:/3", "E1:4/"}, 0) // an update that changes nothing, then the first real one
+		runCase([]string{"D1/", "C1:1v", "E1:1,2/", "E1:2b/2"}, 0)                                         // an address in both lists of one update
+		runCase([]string{"D1/", "C1:1v", "E1:/9", "E1:1/"}, 0)                                             // removal-only update before any addition
+		runCase([]string{"D1/", "E1:1,2,3/", "C1:1v", "E1:/2"}, 4)                                         // store ahead of the controller
+		runCase([]string{"D1/", "E1:7/", "C1:1i", "C1:2v"}, 0)                                             // an invalid configuration later corrected (known finding)
+		runCase([]string{"D1/", "C1:1v", "E1:/", "E1:/3", "E1:4/"}, 0)                                     // an update that changes nothing, then the first real one
 		runCase([]string{"D1,2/", "C1:1v", "E1:1/", "D/1", "C1:2v", "E1:5/", "C2:3v", "E2:6b/", "D1/"}, 2) // updates for a removed service
 		r := newRng(*fSeed)
 		eps := func(max int) string {
